@@ -21,8 +21,8 @@ from .c10 import phi_leaves
 
 MANIFEST = {
     "level": "other",
-    "technique": "static analysis: path rule for the refusals, table audit against the stdlib calendar, syntactic rule on truncation (iint vs int) in the calendar algorithms, control-dependence of the century correction, pairing of forward/inverse constants extracted from the symbolically evaluated conversion routines, exact execution (rational arithmetic) of the extracted date -> JDE and JDE -> date terms on every day of whole calendar cycles, exhaustive decision tables (leap rule over the residues mod 400 on both sides of 1582, the Julian/Gregorian test on every ordering class of (year, month, day) against the change-over date)",
-    "text": "The refusal clause is decided on every path; the month-length and month-name tables are compared with the standard library; floor semantics of INT() and its use in the algorithms, the conditional calendar switch at 15 October 1582 in both directions, and the pairing of every constant of the forward conversion with its inverse are decided from the source. The bijection itself is decided by exact execution of the two extracted conversion terms on consecutive civil days: a full Julian 4-year cycle for positive and negative years, the first years of the domain, 1582-1583, the turn of every kind of century year, the last year of the domain and - thorough tier - every one of the 146097 days of a Gregorian 400-year cycle: the date reads back as itself, consecutive days are exactly 1 apart, and the three anchor values hold. Outside the executed days the claim rests on the periodicity of the recipes; the float evaluation of INT(365.25 y) and INT(30.6001 (m+1)) is argued, not proved, to agree with the exact one.",
+    "technique": "static analysis: path rule for the refusals, table audit against the stdlib calendar, syntactic rule on truncation (iint vs int) in the calendar algorithms, control-dependence of the century correction, pairing of forward/inverse constants extracted from the symbolically evaluated conversion routines, exact execution (rational arithmetic) of the extracted date -> JDE and JDE -> date terms on every day of whole calendar cycles, exact execution of the accept / refuse decision of Epoch.set (with _check_values and _compute_jde by their own terms) on every class of (year, month, day), exhaustive decision tables (leap rule over the residues mod 400 on both sides of 1582, the Julian/Gregorian test on every ordering class of (year, month, day) against the change-over date)",
+    "text": "The refusal clause is decided by executing the construction path of Epoch(year, month, day) - wherever in it the tests are made - on every class of date (years on both sides of -4712, of the leap rules and of 1582; every month; day 0, a fraction below 1, 1, the last day, the last day plus a fraction, the first day past the month end, 32): ValueError exactly for year < -4712, day < 1 and days past the month's length under the leap rule in force; the month-length and month-name tables are compared with the standard library; floor semantics of INT() and its use in the algorithms, the conditional calendar switch at 15 October 1582 in both directions, and the pairing of every constant of the forward conversion with its inverse are decided from the source. The bijection itself is decided by exact execution of the two extracted conversion terms on consecutive civil days: a full Julian 4-year cycle for positive and negative years, the first years of the domain, 1582-1583, the turn of every kind of century year, the last year of the domain and - thorough tier - every one of the 146097 days of a Gregorian 400-year cycle: the date reads back as itself, consecutive days are exactly 1 apart, and the three anchor values hold. Outside the executed days the claim rests on the periodicity of the recipes; the float evaluation of INT(365.25 y) and INT(30.6001 (m+1)) is argued, not proved, to agree with the exact one.",
     "note": "Trusted: stdlib calendar tables and leap rule; Python floor; JDN 2299161 = 15 Oct 1582 (computed in the checker with integer arithmetic). Undecided: float vs exact evaluation of the floors; days outside the executed cycles (periodicity).",
 }
 MOD = "Epoch"
